@@ -5,7 +5,10 @@ relabel(op_custom(x, y)) = op_default(relabel x, relabel y) (the duals up to the
 the custom pseudoscalar), coefficient accessors with every spelling, the named constructors, inverse;
 rejection of operands from algebras whose metric or basis differ.  The sign-table isomorphism and the
 multivector-level statement are theorems (Props/C14.v, Theory/Relabel.v); the model's agreement with
-the implementation on custom bases is part of the C01-C05 correspondences."""
+the implementation on custom bases is part of the C01-C05 correspondences; in addition the model's
+phi_key / phi_sign (Theory/Relabel.v, D = mk_default of the same signature and start index) are evaluated by
+Coq on every explored basis and compared with the implementation's ordered products in the real default
+algebra, together with the table isomorphism itself (table_iso_b) and wf_alg of both algebras."""
 import warnings, itertools, functools, operator
 from fractions import Fraction
 import kv, algs, opcorr as oc
@@ -13,7 +16,8 @@ import kv, algs, opcorr as oc
 RULE = ('custom bases: all admissible bases for d<=2 (sampled in quick), random ones for d=3,4 (5 in thorough), start indices 0-2, the three '
         'named algebras; operators {gp, op, ip, lc, rc, sp, cp, acp, add, sub, neg, reverse, involute, conjugate, sw, proj, inv, div, rp, '
         'hodge, unhodge, polarity, unpolarity, normsq}; random sparse operands (Fraction values); accessor spellings; all pairs from a pool '
-        'of 9 algebras for the rejection clause.  Non-trivial = the basis differs from the default one; distinct = distinct (basis, operator, keys).')
+        'of 9 algebras for the rejection clause; per basis one model case: the Coq values of (phi_key, phi_sign) on all blades = the '
+        'ordered products computed by the real default-basis algebra.  Non-trivial = the basis differs from the default one; distinct = distinct (basis, operator, keys).')
 TRUSTED = ['the default-basis algebra of the implementation is the reference (its table is covered by C01)', 'Fraction arithmetic']
 ASSUMPTIONS = ['the orientation sign of the custom pseudoscalar is factored out for the dual-type operators, as C05 forces']
 
@@ -49,6 +53,7 @@ def run(R, tier):
         d = rng.choice((3, 3, 4) if tier == 'quick' else (3, 4, 4, 5))
         specs.append({'sig': [rng.choice((1, 1, -1, 0)) for _ in range(d)], 'basis': algs.random_basis(rng, d)})
     specs += [{'fromname': nm} for nm in algs.NAMED]
+    pool, cases = algs.AlgPool(), []
     for spec in specs:
         Ac = algs.make_impl(spec)
         d = Ac.d
@@ -76,6 +81,16 @@ def run(R, tier):
         if any(s not in (1, -1) for _, s in imgs) or len({k for k, _ in imgs}) != len(imgs):
             viol('relabel-bijection', f'blades of Algebra({desc}) do not map bijectively to signed blades of the default algebra', algebra=spec); continue
         o = phi_blade(Ac.bin2canon[2 ** d - 1])[1]
+        # model tie: phi_key / phi_sign of Theory/Relabel.v against these ordered products of the implementation
+        ref, dfn = pool.ref(spec)
+        chk = ('let D := mk_default (a_sig A) (a_start A) false in '
+               f'wf_alg A && wf_alg D && Z.eqb (a_start A) {kv.Z(start)} && '
+               'list_eqb (pair_eqb Z.eqb Z.eqb) (map (fun I => (phi_key A D I, phi_sign A D I)) (canon_keys A)) '
+               + kv.blist(kv.pair(kv.Z(k), kv.Z(s_)) for k, s_ in imgs) + ' && table_iso_b A D')
+        show = 'let D := mk_default (a_sig A) (a_start A) false in Some (a_start A, map (fun I => (I, phi_key A D I, phi_sign A D I)) (canon_keys A), table_iso_b A D)'
+        cases.append({'check': algs.with_alg(ref, chk), 'show': algs.with_alg(ref, show, 'None'), 'defs': [dfn],
+                      'meta': {'spec': spec, 'impl': [(int(k), int(s_)) for k, s_ in imgs]}})
+        R.case((desc, 'phi-model'), True, sample={'basis': desc, 'phi (key, sign) per canonical blade': str(imgs)[:160]})
         for rep in range(2 if tier == 'quick' else 5):
             ka, _ = oc.random_keys(rng, Ac, rng.choice(['sparse', 'grade', 'dense', 'single']))
             kb, _ = oc.random_keys(rng, Ac, rng.choice(['sparse', 'grade', 'single']))
@@ -130,6 +145,13 @@ def run(R, tier):
                 R.case((desc, 'getattr', ka, sp), True)
                 if getattr(xc, sp) != getattr(xd, sp):
                     viol('accessor', f'x.{sp} = {getattr(xc, sp)} in Algebra({desc}) but {getattr(xd, sp)} after relabelling into the default basis; x={x}', algebra=spec, spelling=sp, x=str(x))
+    bad, shown = kv.run_cases('C14', cases, imports='Model.All Theory.WF Theory.Relabel')
+    for i in bad:
+        m = cases[i]['meta']
+        R.violation({'clause': 'relabel-model', 'basis': algs.kind(m['spec'])},
+                    {'algebra': m['spec'], 'impl': m['impl'], 'model': shown.get(i)},
+                    f'relabel-model: the ordered products of the generators of the blades of Algebra({algs.describe(m["spec"])}) computed in the '
+                    f'default-basis algebra are {m["impl"]}, the proved model gives {shown.get(i)}')
     # named constructors are instances of the general mechanism
     for nm, (pqr, basis) in algs.NAMED.items():
         A1, A2 = Algebra.fromname(nm), Algebra(*pqr, basis=list(basis))
